@@ -3,6 +3,7 @@ package iso
 import (
 	"bytes"
 	"fmt"
+	"reflect"
 
 	"github.com/brocaar/lorawan"
 	"github.com/brocaar/lorawan/applayer/clocksync"
@@ -283,7 +284,7 @@ func reuseDecode(r *sim.Rand) {
 		c1 := with[r.Intn(len(with))].GenCmd(r)
 		b1 := spec.EncodeStreamSpec([]spec.Cmd{c1})
 		b2 := []byte{without[r.Intn(len(without))].CID}
-		reuseExperiment("MACCommand", "", func() interface{} { return &lorawan.MACCommand{} }, up, b1, b2)
+		reuseExperiment(r, "MACCommand", "", func() interface{} { return &lorawan.MACCommand{} }, up, b1, b2)
 		return
 	}
 	if r.Intn(12) == 0 {
@@ -301,7 +302,7 @@ func reuseDecode(r *sim.Rand) {
 			b1 := spec.EncodeStreamSpec([]spec.Cmd{pr[0].GenCmd(r)})
 			b2 := spec.EncodeStreamSpec([]spec.Cmd{pr[1].GenCmd(r)})
 			simrt.Count(cCrossDir)
-			reuseExperimentDir("MACCommand", "", func() interface{} { return &lorawan.MACCommand{} }, !up, up, b1, b2)
+			reuseExperimentDir(r, "MACCommand", "", func() interface{} { return &lorawan.MACCommand{} }, !up, up, b1, b2)
 			return
 		}
 	}
@@ -312,7 +313,7 @@ func reuseDecode(r *sim.Rand) {
 		if r.Intn(2) == 0 {
 			f1, f2 = 0, 1
 		}
-		reuseExperiment(t.name, "", t.mk, up, t.gen(r, f1), t.gen(r, f2))
+		reuseExperiment(r, t.name, "", t.mk, up, t.gen(r, f1), t.gen(r, f2))
 		return
 	}
 	at := appTypes[r.Intn(len(appTypes))]
@@ -355,7 +356,7 @@ func reuseDecode(r *sim.Rand) {
 	switch at.kind {
 	case 0:
 		mk := func() interface{} { v, _ := p.payload(at.up, at.cid); return v }
-		reuseExperiment("", p.name, mk, at.up, b1, b2)
+		reuseExperiment(r, "", p.name, mk, at.up, b1, b2)
 	case 1:
 		b1[0], b2[0] = at.cid, at.cid
 		if r.Intn(2) == 0 {
@@ -367,7 +368,7 @@ func reuseDecode(r *sim.Rand) {
 			}
 			simrt.Count(cOtherCID)
 		}
-		reuseExperiment("", p.name, p.newCmd, at.up, b1, b2)
+		reuseExperiment(r, "", p.name, p.newCmd, at.up, b1, b2)
 	default:
 		// command streams of one to three commands, each sized by the library
 		// itself; the first is the type's own command, the others may be any
@@ -398,17 +399,111 @@ func reuseDecode(r *sim.Rand) {
 		if len(s1) == 0 || len(s2) == 0 {
 			return
 		}
-		reuseExperiment("", p.name, p.newCmds, at.up, s1, s2)
+		reuseExperiment(r, "", p.name, p.newCmds, at.up, s1, s2)
 	}
 }
 
-func reuseExperiment(name, pkg string, mk func() interface{}, up bool, b1, b2 []byte) {
-	reuseExperimentDir(name, pkg, mk, up, up, b1, b2)
+func reuseExperiment(r *sim.Rand, name, pkg string, mk func() interface{}, up bool, b1, b2 []byte) {
+	reuseExperimentDir(r, name, pkg, mk, up, up, b1, b2)
+}
+
+// ownerUse: between two decodes the owner of a value uses it - it sets
+// exported numbers, flags and byte arrays (the full 32-bit frame counter of
+// the session after a decode delivered 16 bits of it, a flag, a time, an
+// address). What hangs on pointers, slices and interfaces stays in place and
+// is used the same way. Numbers lean towards the ends of their types.
+func ownerUse(v reflect.Value, r *sim.Rand, depth int) {
+	if depth > 6 {
+		return
+	}
+	switch v.Kind() {
+	case reflect.Ptr, reflect.Interface:
+		if !v.IsNil() {
+			ownerUse(v.Elem(), r, depth+1)
+		}
+	case reflect.Struct:
+		for i := 0; i < v.NumField(); i++ {
+			if v.Type().Field(i).PkgPath == "" { // exported
+				ownerUse(v.Field(i), r, depth+1)
+			}
+		}
+	case reflect.Slice:
+		if v.Type().Elem().Kind() == reflect.Uint8 {
+			return // the bytes of a message: data, not state
+		}
+		for i := 0; i < v.Len() && i < 8; i++ {
+			ownerUse(v.Index(i), r, depth+1)
+		}
+	case reflect.Array:
+		if v.CanSet() && v.Type().Elem().Kind() == reflect.Uint8 && r.Intn(2) == 0 {
+			for i := 0; i < v.Len(); i++ {
+				v.Index(i).SetUint(uint64(r.Intn(256)))
+			}
+		}
+	case reflect.Bool:
+		if v.CanSet() && r.Intn(2) == 0 {
+			v.SetBool(r.Intn(2) == 0)
+		}
+	case reflect.Uint8, reflect.Uint16, reflect.Uint32, reflect.Uint64, reflect.Uint:
+		if v.CanSet() && r.Intn(2) == 0 {
+			bits := uint(v.Type().Bits())
+			var x uint64
+			switch r.Intn(4) {
+			case 0:
+				x = ^uint64(0) // the largest value of the type
+			case 1:
+				x = uint64(1) << uint(r.Intn(int(bits))) // one bit
+			default:
+				x = uint64(r.Intn(1<<30))<<32 ^ uint64(r.Intn(1<<30))<<8 ^ uint64(r.Intn(256))
+			}
+			if bits < 64 {
+				x &= 1<<bits - 1
+			}
+			v.SetUint(x)
+		}
+	case reflect.Int8, reflect.Int16, reflect.Int32, reflect.Int64, reflect.Int:
+		if v.CanSet() && r.Intn(2) == 0 {
+			bits := uint(v.Type().Bits())
+			x := int64(r.Intn(1<<30))<<16 ^ int64(r.Intn(1<<16))
+			if r.Intn(2) == 0 {
+				x = -x
+			}
+			if bits < 64 {
+				x = x << (64 - bits) >> (64 - bits)
+			}
+			v.SetInt(x)
+		}
+	}
+}
+
+type mb interface{ MarshalBinary() ([]byte, error) }
+
+// marshalOnly: encoders only inspect the value they encode - whatever state
+// its owner left it in (numbers beyond what the wire format carries included:
+// an encoder may refuse or cut them, it does not repair them in place).
+func marshalOnly(r *sim.Rand, name string, v interface{}) {
+	m, ok := v.(mb)
+	if !ok {
+		return
+	}
+	simrt.Count(cMarshalOnly)
+	before := sim.DeepSig(v)
+	var err error
+	if quiet(func() { _, err = m.MarshalBinary() }) {
+		functional("marshal-only:panic") // totality is not this property's subject
+		return
+	}
+	if t, ok := v.(interface{ MarshalText() ([]byte, error) }); ok {
+		quiet(func() { t.MarshalText() })
+	}
+	if after := sim.DeepSig(v); after != before {
+		simrt.Report("readonly.modified:MarshalBinary:"+name, fmt.Sprintf("MarshalBinary of a %s changed the value it encodes: before %s after %s (err=%v)", name, before, after, err))
+	}
 }
 
 // reuseExperimentDir: the value decoded b1 as a message of direction up1
 // before it decodes b2 as one of direction up.
-func reuseExperimentDir(name, pkg string, mk func() interface{}, up1, up bool, b1, b2 []byte) {
+func reuseExperimentDir(r *sim.Rand, name, pkg string, mk func() interface{}, up1, up bool, b1, b2 []byte) {
 	used := mk()
 	if pkg != "" {
 		name = typeName(used)
@@ -416,6 +511,17 @@ func reuseExperimentDir(name, pkg string, mk func() interface{}, up1, up bool, b
 	var err1, err2, errF error
 	if quiet(func() { err1 = callUnmarshal(used, up1, append([]byte(nil), b1...)) }) || err1 != nil {
 		return // the first input was not a valid message for this type
+	}
+	switch r.Intn(4) {
+	case 0:
+		simrt.Count(cOwnerUse)
+		ownerUse(reflect.ValueOf(used), r, 0)
+	case 1:
+		marshalOnly(r, name, used)
+	case 2:
+		simrt.Count(cOwnerUse)
+		ownerUse(reflect.ValueOf(used), r, 0)
+		marshalOnly(r, name, used)
 	}
 	fresh := mk()
 	in2 := append([]byte(nil), b2...)
